@@ -100,7 +100,7 @@ CHECKS["C06"] = dict(
 
 CHECKS["C18"] = dict(
     title="Termination analysis returns only genuine ranking functions; methods agree",
-    quick=T([("c18_termination", 1)], cases=9000, secs=50),
+    quick=T([("c18_termination", 1)], cases=60000, secs=50),
     thorough=T([("c18_termination", 1)], cases=250000, secs=600, flavour="san"),
     rule="case = loop relation over 1-3 variables (C / NNC polyhedra, BD shapes, octagons, boxes; single-pset and before/after forms): planted "
          "terminating loops (affine f with f >= 0 and f - f' >= 1 added), planted non-terminating loops (fixpoint / 2-cycle), random relations "
@@ -146,4 +146,23 @@ CHECKS["C12"] = dict(
     level_note="Hardware float/double only (long double not analysed); oracle arithmetic in mpq; g++ -frounding-math only.",
     design_ref="DESIGN.md 4 C12",
     assumptions=["hardware IEEE arithmetic under fesetround is the concrete semantics", "oracle interval arithmetic is correct (self-checked)"],
+)
+
+CHECKS["C16"] = dict(
+    title="Sparse and dense rows are interchangeable; the sparse tree is a correct map",
+    quick=T([("c16_cotree", 1), ("c16_linexpr", 1)], cases=120000, secs=45),
+    thorough=T([("c16_cotree", 1), ("c16_linexpr", 1)], cases=600000, secs=600, flavour="san"),
+    rule="c16_cotree: stateful sequences (<= 200 steps) of insert (plain / with data / fresh, stale and end hints), erase (key, iterator, "
+         "while iterating), index shifts, resize, swaps, reset (one / range / after), combine*, linear_combine (full and sub-range), normalize, "
+         "bisect*, lower_bound/find with hints, copy/assign, construction from Dense_Row on CO_Tree and Sparse_Row, with bulk phases growing rows "
+         "to hundreds of elements (keys up to 10^6) so that the density thresholds are crossed both ways; oracle = std::map model of stored "
+         "entries checked after every step, plus OK()/structure_OK(). c16_linexpr: the same generated operation sequence applied to DENSE, SPARSE "
+         "and mixed-representation Linear_Expression / Constraint / Generator / Congruence / Grid_Generator objects (and systems), all observable "
+         "results compared and checked against a std::vector<mpz_class> model. Non-trivial: >= 1 rebuild of a tree with reserved size >= 31 or a "
+         "stale-but-valid hint used; expressions with >= 3 non-zero coefficients, dimension >= 4, >= 3 mutating operations.",
+    technique="property-based testing (stateful model-based testing against std::map; dense/sparse differential testing)",
+    level_text="Generated operation sequences against an ordered-map model and dense-vs-sparse differential comparison.",
+    level_note="Private members reached through the explicit-instantiation access idiom; keys <= 10^6, <= ~600 stored elements.",
+    design_ref="DESIGN.md 4 C16",
+    assumptions=["std::map / std::vector<mpz_class> models are correct"],
 )
